@@ -26,6 +26,32 @@ struct Script {
     rec: Option<Rng>,
     rec_budget: u32,
     rec_log: Vec<Value>,
+    /// the first handler of this replay starts another thread that builds a runtime (it must wait for the simulation
+    /// lock and must not disturb the running simulation's clock)
+    probe_concurrent_build: bool,
+}
+
+static PROBES: std::sync::Mutex<Vec<std::thread::JoinHandle<()>>> = std::sync::Mutex::new(Vec::new());
+
+/// Another thread calls Builder::build with a different start time while this thread is inside an event handler.
+fn concurrent_build_probe(start: Duration) {
+    let (tx, rx) = std::sync::mpsc::channel::<()>();
+    let h = std::thread::spawn(move || {
+        let _ = tx.send(());
+        // blocks until the running simulation has been dropped
+        let rt = Builder::seeded(7).quiet().start_time(st(start)).build(App);
+        drop(rt);
+    });
+    let _ = rx.recv();
+    std::thread::sleep(Duration::from_millis(2));
+    PROBES.lock().unwrap().push(h);
+}
+
+fn join_probes() {
+    let hs: Vec<_> = std::mem::take(&mut *PROBES.lock().unwrap());
+    for h in hs {
+        let _ = h.join();
+    }
 }
 
 thread_local! {
@@ -113,6 +139,14 @@ impl Event<App> for Ev {
         if rt.sim_time() != now {
             SCRIPT.with(|s| s.borrow_mut().fail = Some(json!({"field": "Runtime::sim_time differs from SimTime::now in handler"})));
             return;
+        }
+        if SCRIPT.with(|s| std::mem::take(&mut s.borrow_mut().probe_concurrent_build)) {
+            concurrent_build_probe(*now + Duration::from_secs(1_000_000));
+            if SimTime::now() != now {
+                SCRIPT.with(|s| s.borrow_mut().fail = Some(json!({"field": "SimTime::now changed inside a handler while another thread was building a runtime",
+                    "expected": format!("{now:?}"), "got": format!("{:?}", SimTime::now())})));
+                return;
+            }
         }
         let (emb, use_abs) = SCRIPT.with(|s| {
             let s = s.borrow();
@@ -259,7 +293,8 @@ fn check_finish(res: Result<(App, SimTime, Profiler<Ev>), RuntimeError>, e: &Val
 fn replay_one(beh: &[Value], n: usize, w: Duration, emb: &Emb, variant: usize) -> Result<u64, Value> {
     let cfgv = &beh[0];
     SCRIPT.with(|s| {
-        *s.borrow_mut() = Script { entries: beh.to_vec(), pos: 1, emb: Some(emb.clone()), use_abs: variant % 3 == 0, ..Default::default() }
+        *s.borrow_mut() = Script { entries: beh.to_vec(), pos: 1, emb: Some(emb.clone()), use_abs: variant % 3 == 0,
+                                   probe_concurrent_build: variant % 499 == 5, ..Default::default() }
     });
     let mut rt = Some(builder_for(cfgv, n, w, emb, variant).build(App));
     let mut checks = 0u64;
@@ -505,7 +540,9 @@ pub fn replay(args: &[String]) {
             }
             s.replays += 1;
             watchdog::enter(|| json!({"behaviour": v, "cfg": {"n": n, "w_ns": w.as_nanos() as u64, "emb": emb.kind}}).to_string());
-            match replay_one(&beh, *n, *w, emb, ci + li) {
+            let res = replay_one(&beh, *n, *w, emb, ci + li);
+            join_probes();      // the runtime of this replay is gone: the waiting builder gets the lock and finishes
+            match res {
                 Ok(c) => s.checks += c,
                 Err(mut m) => {
                     m["cfg"] = json!({"n": n, "w_ns": w.as_nanos() as u64, "emb": emb.kind, "variant": ci + li});
